@@ -92,7 +92,7 @@ def _job(job):
         part.add("skipped_inside_crash_window[%s]" % variant, res.skipped)
         part["capped"] = True
     for cls in sorted(res.first, key=lambda c: res.first[c]):
-        if cls.startswith("W[") and len(part["samples"]) < 2:
+        if not cls.startswith("(") and (cls.startswith("W[") or shard == 0) and len(part["samples"]) < 2:
             part["samples"].append({"scenario": name, "variant": variant, "narena": res.first[cls], "outcome": cls})
     rep = dict(scenario=name, variant=variant, nstep=nstep, xml=open(xmlpath).read())
     for f, n, l, key, what in res.viol:
